@@ -69,25 +69,25 @@ impl LineIndex {
         self.line_offsets.len()
     }
 
-    // get col base 0
+    // get col base 0, counted in UTF-16 code units like LSP positions
     pub fn get_col(&self, offset: TextSize, source_text: &str) -> Option<usize> {
         let (line, start_offset) = self.get_line_with_start_offset(offset)?;
         if self.is_line_only_ascii_index(line) {
             Some(usize::from(offset - start_offset))
         } else {
             let text = &source_text[usize::from(start_offset)..usize::from(offset)];
-            Some(text.chars().count())
+            Some(utf16_len(text))
         }
     }
 
-    // get line and col base 0
+    // get line and col base 0, col counted in UTF-16 code units like LSP positions
     pub fn get_line_col(&self, offset: TextSize, source_text: &str) -> Option<(usize, usize)> {
         let (line, start_offset) = self.get_line_with_start_offset(offset)?;
         if self.is_line_only_ascii_index(line) {
             Some((line, usize::from(offset - start_offset)))
         } else {
             let text = &source_text[usize::from(start_offset)..usize::from(offset)];
-            Some((line, text.chars().count()))
+            Some((line, utf16_len(text)))
         }
     }
 
@@ -131,14 +131,19 @@ impl LineIndex {
             let mut offset = 0;
             let mut col = col;
             for c in source_text[start_offset..end_offset].chars() {
-                if col == 0 {
+                if col < c.len_utf16() {
                     break;
                 }
 
                 offset += c.len_utf8();
-                col -= 1;
+                col -= c.len_utf16();
             }
             Some(TextSize::from(offset as u32))
         }
     }
+}
+
+// LSP measures the character of a position in UTF-16 code units unless another encoding is negotiated
+fn utf16_len(text: &str) -> usize {
+    text.chars().map(char::len_utf16).sum()
 }
